@@ -93,6 +93,8 @@ def run(tier, seed):
     cov["negative_controls"] = ["Variant=overwrite refutes ClausesCombine", "Variant=swallow refutes ClauseOrthogonal"]
     gens = [("singles x bodies", K.tla_consts(ids, bodies, MaxClauses=1, WithHist="TRUE")),
             ("pairs", K.tla_consts(ids, ["plain", "table_pk"] if not thorough else bodies, MaxClauses=2, WithHist="TRUE"))]
+    if not thorough:
+        gens.append(("triples (one body)", K.tla_consts(ids, ["last_notnull"], MaxClauses=3, WithHist="TRUE")))
     if thorough:
         gens.append(("triples", K.tla_consts(ids, ["last_notnull", "table_pk", "last_default_num"], MaxClauses=3, WithHist="TRUE")))
     # top-level keys of a clause-free table per mode (what is NOT a clause key)
